@@ -23,7 +23,7 @@ Definition case := (N * program * option (list id) * option (list id) * bool)%ty
 Definition witnesses : list program :=
   [single w_direct; single w_func; single w_multi_call; single w_multi_unit; single w_false_dep;
    single w_false_loop; w_pkg_order; single w_go_multi; single w_go_noinit; single w_plain;
-   single w_sorted; w_program; single w_cycle; w_special].
+   single w_sorted; w_program; single w_cycle; w_special; single w_blanks].
 
 Fixpoint leqb {A} (e : A -> A -> bool) (a b : list A) : bool :=
   match a, b with
